@@ -151,7 +151,8 @@ Proof.
     assert (Ei : i = 192 + c / 64) by congruence. assert (Et : t = [128 + c mod 64]) by congruence. subst i t. clear He'.
     destruct (read_byte_some p _ _ Hok Hp) as (p1 & R1 & O1 & P1 & F1).
     assert (E1 : (192 + c / 64 <? 192) || (247 <? 192 + c / 64) = false) by lia. rewrite E1.
-    assert (E2 : (192 + c / 64 <? 224) = true) by lia. rewrite E2. rewrite R1.
+    assert (E2 : (192 + c / 64 <? 224) = true) by lia. rewrite E2. cbn [read_cont]. rewrite R1.
+    assert (N1 : (128 + c mod 64 =? -1) = false) by lia. rewrite N1.
     eexists. split; [|split; [exact O1|split; [exact P1|cbn [length] in *; unfold BUF_START in *; lia]]].
     f_equal. f_equal. bits. lia.
   - pose proof He as He'. rewrite (encode_3 c K) in He'.
@@ -160,7 +161,9 @@ Proof.
     destruct (read_byte_some p1 _ _ O1 P1) as (p2 & R2 & O2 & P2 & F2).
     assert (E1 : (224 + c / 4096 <? 192) || (247 <? 224 + c / 4096) = false) by lia. rewrite E1.
     assert (E2 : (224 + c / 4096 <? 224) = false) by lia. rewrite E2.
-    assert (E3 : (224 + c / 4096 <? 240) = true) by lia. rewrite E3. rewrite R1, R2.
+    assert (E3 : (224 + c / 4096 <? 240) = true) by lia. rewrite E3. cbn [read_cont]. rewrite R1.
+    assert (N1 : (128 + (c / 64) mod 64 =? -1) = false) by lia. rewrite N1. rewrite R2.
+    assert (N2 : (128 + c mod 64 =? -1) = false) by lia. rewrite N2.
     eexists. split; [|split; [exact O2|split; [exact P2|cbn [length] in *; unfold BUF_START in *; lia]]].
     f_equal. f_equal. bits. lia.
   - pose proof He as He'. rewrite (encode_4 c K) in He'.
@@ -171,7 +174,10 @@ Proof.
     unfold cp in Hc.
     assert (E1 : (240 + c / 262144 <? 192) || (247 <? 240 + c / 262144) = false) by lia. rewrite E1.
     assert (E2 : (240 + c / 262144 <? 224) = false) by lia. rewrite E2.
-    assert (E3 : (240 + c / 262144 <? 240) = false) by lia. rewrite E3. rewrite R1, R2, R3.
+    assert (E3 : (240 + c / 262144 <? 240) = false) by lia. rewrite E3. cbn [read_cont]. rewrite R1.
+    assert (N1 : (128 + (c / 4096) mod 64 =? -1) = false) by lia. rewrite N1. rewrite R2.
+    assert (N2 : (128 + (c / 64) mod 64 =? -1) = false) by lia. rewrite N2. rewrite R3.
+    assert (N3 : (128 + c mod 64 =? -1) = false) by lia. rewrite N3.
     eexists. split; [|split; [exact O3|split; [exact P3|cbn [length] in *; unfold BUF_START in *; lia]]].
     f_equal. f_equal. bits. lia.
 Qed.
@@ -248,7 +254,7 @@ Qed.
 
 (* ---------------------------------------------------------------- read-string *)
 Lemma read_string_loop_spec n : forall p cs acc, port_ok p -> Forall cp cs -> pending p = enc_all cs ->
-  exists p', read_string_loop n p acc = (rev acc ++ firstn n cs, p') /\ port_ok p' /\
+  exists p', read_string_loop n p acc = (Ok (rev acc ++ firstn n cs), p') /\ port_ok p' /\
              pending p' = enc_all (skipn n cs).
 Proof.
   induction n as [|n IH]; intros p cs acc Hok Hcs Hp.
@@ -267,7 +273,7 @@ Qed.
 
 (** read-string n = the first n characters (all of them when fewer are left), the others stay pending *)
 Theorem read_string_spec n p cs : port_ok p -> Forall cp cs -> pending p = enc_all cs ->
-  exists p', read_string n p = (firstn n cs, p') /\ port_ok p' /\ pending p' = enc_all (skipn n cs).
+  exists p', read_string n p = (Ok (firstn n cs), p') /\ port_ok p' /\ pending p' = enc_all (skipn n cs).
 Proof. intros. unfold read_string. apply (read_string_loop_spec n p cs []); assumption. Qed.
 
 (** constructors establish the invariant: a string port over the bytes of a string, and a
@@ -289,8 +295,8 @@ Qed.
     through read-char one by one (here: all of them through read-string), whatever the buffer size,
     wherever the refill boundaries fall; then end of file *)
 Theorem port_read_roundtrip cs n src sched : Forall cp cs -> (BUF_START < n)%nat -> src = enc_all cs ->
-  (exists p', read_string (length cs) (open_fd_port n src sched) = (cs, p') /\ pending p' = [] /\ port_ok p') /\
-  (exists p', read_string (length cs) (open_string_port src) = (cs, p') /\ pending p' = [] /\ port_ok p').
+  (exists p', read_string (length cs) (open_fd_port n src sched) = (Ok cs, p') /\ pending p' = [] /\ port_ok p') /\
+  (exists p', read_string (length cs) (open_string_port src) = (Ok cs, p') /\ pending p' = [] /\ port_ok p').
 Proof.
   intros Hcs Hn ->. split.
   - destruct (open_fd_port_ok n (enc_all cs) sched Hn) as [O P].
